@@ -95,6 +95,7 @@ def check(ctx: Ctx) -> None:
     S.r_who_release(ctx, "R15.6")
     S.r_who_write_semaphore(ctx, "R15.7")
     S.r_acquire_dominates_create(ctx, "R15.8")
+    S.r_limit_is_assigned_value(ctx, "R15.9")
     # constructor goes through the setter
     for f in ctx.pool_funcs("__init__"):
         if f.cls is not ctx.base:
